@@ -6,13 +6,17 @@ from .. import core
 from . import ts
 
 
+GE3_TEXT = ("bsplinebasis fills a (points x nknots-order-1) column-major matrix with bspline(knots, x[row], col, order) — every entry, in a "
+            "perfect nest of two counting loops, whatever the values or the order of the points — and its local Cox-de Boor recursion is a "
+            "clone of the library's reference bspline()")
+
+
 def run(P, C):
     C.rule("GE-1", "grideval turns the coefficient array into a sparse n-tuple by row-major decomposition with the table's strides (index = "
            "coord / strides[dim], coord %= strides[dim]), inserts exactly the non-zero coefficients, and sets each range to the axis length", floor=4)
     C.rule("GE-2", "for every dimension i the basis matrix is bsplinebasis(knots[i], nknots[i], coords[i].data(), coords[i].size(), order[i]), it is "
            "transposed, and slicemultiply is applied along the same i; the loop covers all dimensions; the dimension count of the argument is checked", floor=4)
-    C.rule("GE-3", "bsplinebasis fills a (points x nknots-order-1) column-major matrix with bspline(knots, x[row], col, order), and its local "
-           "Cox-de Boor recursion is a clone of the library's reference bspline()", floor=3)
+    C.rule("GE-3", GE3_TEXT, floor=3)
     gs = [f for f in P.fns("grideval") if f.cls == ts.CLS and f.unit == "driver"]
     if len(gs) < 2:
         raise core.AnalysisBroken("grideval: expected two instantiations (vector, array_view), found %d" % len(gs))
@@ -66,7 +70,14 @@ def run(P, C):
         g = [x for x in vg.guards_of(f)]
         okg = any(len(x["leaves"]) == 1 and x["leaves"][0] == (core.eq_norm(vg.P_("$0.size() - ndim")), "!=0") for x in g)
         C.ob("GE-2", name, "dimension-count-checked", okg, f.where(), "coords.size() != ndim is rejected")
-    # GE-3
+    ge3(P, C, declare=False)
+
+
+def ge3(P, C, declare=True):
+    """GE-3: bsplinebasis fills basis(row, col) = bspline(knots, x[row], col, order) for every point and basis function, column-major; the
+    fitter's private bspline() is a clone of the library's reference."""
+    if declare:
+        C.rule("GE-3", GE3_TEXT, floor=4)
     B = P.one("bsplinebasis", file_endswith="splineutil.c")
     fill = [B.alpha(i)[0].replace(" ", "") for i in B.walk() if ts.assign_parts(B, i) and "->x" in B.render(ts.assign_parts(B, i)[0])]
     ns = [B.alpha(i)[0].replace(" ", "") for i in B.walk() if ts.assign_parts(B, i) and B.render(ts.assign_parts(B, i)[0]) == "nsplines"]
@@ -88,6 +99,21 @@ def run(P, C):
                 roles_ok = role.get(order[2]) == "points" and role.get(order[3]) == "functions"
     C.ob("GE-3", "bsplinebasis", "fill", fill == ["((double*)v0->x[v1]=bspline($0,$2[v2],v3,$4))"] and roles_ok, B.where(),
          "basis(row, col) = bspline(knots, x[row], col, order) with row running over the points and col over the basis functions: %s (roles ok: %s)" % (fill, roles_ok))
+    # every entry is filled: the store sits in a perfect nest of two counting loops (no branch, break or continue on the way)
+    from . import gw as _gw
+    st = [i for i in B.walk() if ts.assign_parts(B, i) and "->x" in B.render(ts.assign_parts(B, i)[0])]
+    perfect = False
+    detp = "no fill store"
+    if len(st) == 1:
+        Ls = [a for a in B.ancestors(st[0]) if B.k(a) in ("ForStmt", "WhileStmt", "DoStmt")]
+        between = [a for a in B.ancestors(st[0]) if B.k(a) in ("IfStmt", "SwitchStmt", "ConditionalOperator")]
+        jumps = [x for L in Ls[-1:] for x in B.walk(L) if B.k(x) in ("BreakStmt", "ContinueStmt", "GotoStmt", "ReturnStmt")]
+        canon = [_gw._c_canonical_loop(B, L) for L in Ls]
+        perfect = len(Ls) == 2 and all(c is not None for c in canon) and not between and not jumps
+        detp = "%d enclosing loop(s), canonical counting loops: %s, conditional on the way: %s, jumps out of the nest: %s" % (
+            len(Ls), [c is not None for c in canon], bool(between), [B.k(x) for x in jumps])
+    C.ob("GE-3", "bsplinebasis", "every-entry-filled", perfect, B.loc(st[0]) if st else B.where(),
+         "basis(row, col) is computed for every point and every basis function, whatever the order of the points: " + detp)
     C.ob("GE-3", "bsplinebasis", "column-count", ns == ["(v0=(($1-$4)-1))"], B.where(), "nknots-order-1 basis functions: %s" % ns)
     loops = [i for i in B.walk() if B.k(i) == "ForStmt"]
     order_ok = len(loops) == 2 and "col" in B.render(B.nodes[loops[0]]["cond"]) and "row" in B.render(B.nodes[loops[1]]["cond"]) and \
